@@ -18,7 +18,7 @@ fn num(v: &Value, t: &Value) -> String {
 }
 
 fn op(o: &str) -> &'static str {
-    match o { "add" => "+", "sub" => "-", "mul" => "*", "div" => "/", "mod" => "%", "and" => "&", "or" => "|", "xor" => "^", "gt" => ">", "lt" => "<", "eq" => "==", "ne" => "!=", "shl" => "<<", "shr" => ">>", "land" => "&&", "lor" => "||", _ => "+" }
+    match o { "add" => "+", "sub" => "-", "mul" => "*", "div" => "/", "mod" => "%", "and" => "&", "or" => "|", "xor" => "^", "gt" => ">", "lt" => "<", "eq" => "==", "ne" => "!=", "shl" => "<<", "shr" => ">>", "land" => "&&", "lor" => "||", "le" => "<=", "ge" => ">=", _ => "+" }
 }
 
 pub fn pat(p: &Value) -> String {
@@ -111,6 +111,13 @@ pub fn stmt(s: &Value, last: bool) -> String {
                 match a["k"].as_str().unwrap() { "idx" => place += &format!("[{}]", expr(&a["i"])), "tup" => place += &format!(".{}", a["i"]), _ => place += &format!(".{}", a["f"].as_str().unwrap()) }
             }
             format!("{place} = {};", expr(&s["e"]))
+        }
+        "opassign" => {
+            let mut place = s["n"].as_str().unwrap().to_string();
+            for a in s["acc"].as_array().unwrap() {
+                match a["k"].as_str().unwrap() { "idx" => place += &format!("[{}]", expr(&a["i"])), "tup" => place += &format!(".{}", a["i"]), _ => place += &format!(".{}", a["f"].as_str().unwrap()) }
+            }
+            format!("{place} {}= {};", op(s["op"].as_str().unwrap()), expr(&s["e"]))
         }
         "for" => format!("for {} in {} {{ {} }}", pat(&s["p"]), expr(&s["e"]), stmts_all(s["body"].as_array().unwrap())),
         "forjoin" => format!("for {} in join_iter({}, {}) {{ {} }}", pat(&s["p"]), expr(&s["a"]), expr(&s["b"]), stmts_all(s["body"].as_array().unwrap())),
